@@ -8,7 +8,8 @@ EXPLANATION = (
     "default-glob test is guarded by should_respect_ignores(); WalkBuilder::hidden receives `!opt.allow_hidden`; the "
     "custom ignore file name is `.styluaignore`; should_respect_ignores is `!explicit || respect_ignores`; format_file "
     "has one caller (R-FS); the --glob override matcher is rooted at std::env::current_dir(); walker options are set once, "
-    "in an order in which none overwrites another. Not decided: what the `ignore` crate's walker yields; path spelling aliases.")
+    "in an order in which none overwrites another. Not decided: what the `ignore` crate's walker yields; path spelling aliases."
+    "Later rounds: (R-WALK roots) the loop over the path arguments cannot return to its head without WalkBuilder::add.")
 ASSUMPTIONS = ["the `ignore` and `globset` crates behave as documented", "rustc MIR and Instance::try_resolve are trusted"]
 
 
